@@ -155,9 +155,13 @@ def harness(tier, seed):
     for c in classes:
         o = c(big)
         name = str(o)
-        got = int(o.evaluate(yb))
-        evals += 1
         info = {"W": 10 ** 12, "H": 10 ** 4, "rows": [[int(v) for v in yb[r]] for r in range(3)], "objective": name}
+        try:
+            got = int(o.evaluate(yb))
+        except Exception as ex:     # noqa: BLE001  (with NUMBA_BOUNDSCHECK=1 an out-of-range access raises IndexError)
+            viol.append((f"{name}/raises", info, repr(ex)))
+            continue
+        evals += 1
         if got != want_big[name]:
             viol.append((f"{name}/value", info, f"evaluate={got} documented value={want_big[name]}"))
         elif int(o.to_bin_count(got)) != 3:
